@@ -3,6 +3,7 @@ package main
 import (
 	"encoding/json"
 	"fmt"
+	saml2 "github.com/russellhaering/gosaml2"
 	"strings"
 	"sync"
 	"time"
@@ -155,6 +156,12 @@ func c02Honoured(s c02Signer, store []string, clock time.Duration) bool {
 }
 
 func c02Exec(c c02Case) (keys []string, detail string) {
+	return c02ExecOn(c, nil)
+}
+
+// c02ExecOn judges the case on sp (a live instance reconfigured in place) or, when sp is nil,
+// on fresh instances.
+func c02ExecOn(c c02Case, live *saml2.SAMLServiceProvider) (keys []string, detail string) {
 	s := c02Signers[c.Signer]
 	clock := time.Duration(c.Conf.ClockNs)
 	hon := c02Honoured(s, c.Conf.Store, clock)
@@ -163,7 +170,13 @@ func c02Exec(c c02Case) (keys []string, detail string) {
 		hon = hon && c02Honoured(c02Signers[1], c.Conf.Store, clock)
 	}
 	msg := c02Message(c.Kind, c.Signer, c.Deflate)
-	sp := c.Conf.Build()
+	sp := live
+	if sp == nil {
+		sp = c.Conf.Build()
+	} else {
+		sp.IDPCertificateStore = world.Store(c.Conf.Store...)
+		sp.Clock = world.Clock(world.T0.Add(time.Duration(c.Conf.ClockNs)))
+	}
 	var accepted, flagged bool
 	var cr callResult
 	switch c.Kind {
@@ -181,7 +194,11 @@ func c02Exec(c c02Case) (keys []string, detail string) {
 				flagged = len(resp.Assertions) == 2 && resp.Assertions[0].SignatureValidated && resp.Assertions[1].SignatureValidated
 			}
 		}
-		info, r2 := retrieveInfo(c.Conf.Build(), msg)
+		sp2 := live
+		if sp2 == nil {
+			sp2 = c.Conf.Build()
+		}
+		info, r2 := retrieveInfo(sp2, msg)
 		if r2.Accepted() != accepted {
 			keys = append(keys, fmt.Sprintf("C02/%s/entry-points-disagree", c.Kind))
 		}
@@ -222,7 +239,24 @@ func c02Exec(c c02Case) (keys []string, detail string) {
 	return keys, detail
 }
 
+type c02History struct {
+	History []c02Case `json:"history"` // judged in order on one live, reconfigured instance
+}
+
 func c02Replay(raw json.RawMessage) ([]string, string) {
+	var h c02History
+	if json.Unmarshal(raw, &h) == nil && len(h.History) > 0 {
+		sp := h.History[0].Conf.Build()
+		var keys []string
+		var detail string
+		for _, c := range h.History {
+			keys, detail = c02ExecOn(c, sp)
+		}
+		for i := range keys {
+			keys[i] = strings.Replace(keys[i], "C02/", "C02/reconfigured-instance/", 1)
+		}
+		return keys, detail
+	}
 	var c c02Case
 	if err := json.Unmarshal(raw, &c); err != nil {
 		return nil, "bad case: " + err.Error()
@@ -267,6 +301,36 @@ func c02Run(r *mc.Run) {
 		}
 		for _, k := range keys {
 			r.Violation(k, detail, c)
+		}
+	})
+	c02Histories(r, cases)
+}
+
+// c02Histories walks, for every message, all (store, clock) configurations in sequence on ONE
+// live instance whose store and clock are reassigned between calls (certificate roll-over by
+// an operator): every verdict must still follow the configuration in force.
+func c02Histories(r *mc.Run, cases []c02Case) {
+	groups := map[string][]c02Case{}
+	var order []string
+	for _, c := range cases {
+		k := fmt.Sprintf("%s/%d/%v", c.Kind, c.Signer, c.Deflate)
+		if _, ok := groups[k]; !ok {
+			order = append(order, k)
+		}
+		groups[k] = append(groups[k], c)
+	}
+	r.Set("reconfiguration_histories", len(order))
+	r.Par(len(order), func(i int) {
+		g := groups[order[i]]
+		sp := g[0].Conf.Build()
+		for j, c := range g {
+			keys, detail := c02ExecOn(c, sp)
+			r.Eval(1)
+			r.Bucket("history-step")
+			for _, k := range keys {
+				k = strings.Replace(k, "C02/", "C02/reconfigured-instance/", 1)
+				r.Violation(k, fmt.Sprintf("step %d of a history on one instance: %s", j, detail), c02History{History: g[:j+1]})
+			}
 		}
 	})
 }
